@@ -160,6 +160,7 @@ pub fn decode_bits_le(raw: &[F]) -> Option<BigUint> {
 }
 
 /// Decodes a vector of exposed bytes (each must be below 256), little-endian.
+#[allow(dead_code)]
 pub fn decode_bytes_le(raw: &[F]) -> Option<BigUint> {
     let mut bytes = vec![];
     for b in raw {
